@@ -592,6 +592,8 @@ func New(config ...Config) *App {
 	}
 
 	app.config.TrustProxyConfig.ips = make(map[string]struct{}, len(app.config.TrustProxyConfig.Proxies))
+	// a Config taken from another app (app.Config()) carries that app's parsed ranges: start from the listed proxies only
+	app.config.TrustProxyConfig.ranges = nil
 	for _, ipAddress := range app.config.TrustProxyConfig.Proxies {
 		app.handleTrustedProxy(ipAddress)
 	}
